@@ -422,7 +422,9 @@ func gen(r *lib.Rand, tier, stream string, i int) History {
 			st.LockMode = 2
 		}
 		// malformed minority
-		switch r.Weighted(60, 1, 1, 1, 1, 1, 1, 1) {
+		switch r.Weighted(60, 1, 1, 1, 1, 1, 1, 1, 2) {
+		case 8: // the recipient is the htlc module account itself (an ordinary message; the coins would never leave escrow)
+			st.To = ESC
 		case 1:
 			st.Lock = []int64{49, 34561, 0}[r.Intn(3)]
 		case 2:
